@@ -4,14 +4,18 @@ import (
 	"bytes"
 	"context"
 	"fmt"
+	"io"
 	"os"
 	"path/filepath"
 	"strings"
 	"sync"
+	"time"
 
 	"github.com/cloudwego/hertz/pkg/app"
 	"github.com/cloudwego/hertz/pkg/app/middlewares/server/recovery"
 	"github.com/cloudwego/hertz/pkg/protocol"
+	pclient "github.com/cloudwego/hertz/pkg/protocol/client"
+	"github.com/cloudwego/hertz/pkg/protocol/http1"
 
 	"verifsim/core"
 	"verifsim/wire"
@@ -25,10 +29,10 @@ func init() {
 		Stub: []string{"TCP (SimConn)", "peer (scripted actor)", "transporter accept loop (stub)", "clock (synctest)", "file system: real directory tree, no fault injection"},
 		Assumptions: []string{
 			"only the wire paths that feed the public parsers are decided here (DESIGN.md 3 C03); calling parsers directly with arbitrary strings is input fuzzing and is not claimed",
-			"server side only; the client response read path is exercised by C11's corrupt-response sub-workload when built",
+			"client side: hostile responses (mutated, truncated, reset) read by the real HostClient incl. redirects, Set-Cookie and Location parsing; only panics and hangs are judged there",
 			"a parse-level rejection is recognised as: last response on the connection is 400/413/408, no handler ran for it and Engine.Serve returned a non-nil error",
 		},
-		RequiredProbes: []string{"mut-flip", "mut-insert", "mut-delete", "mut-dup", "mut-token", "truncate", "rst", "rejected", "too-large", "too-large-multipart", "too-large-chunked", "hostile-chunk-size", "fs-route", "multipart", "cookie", "trailer", "recovery-engine", "default-engine"},
+		RequiredProbes: []string{"mut-flip", "mut-insert", "mut-delete", "mut-dup", "mut-token", "truncate", "rst", "rejected", "too-large", "too-large-multipart", "too-large-chunked", "hostile-chunk-size", "fs-route", "multipart", "cookie", "trailer", "recovery-engine", "default-engine", "client-side"},
 	}
 }
 
@@ -140,6 +144,10 @@ func mutate(tp *core.Tape, ep *core.Episode, stream []byte, bounds []int) ([]byt
 
 func RunC03(ep *core.Episode) {
 	tp := ep.Tape
+	if ep.Param("client") != "off" && tp.Chance("client-side", 1, 4) {
+		runC03Client(ep)
+		return
+	}
 	o := SrvOpts{BufSize: tp.Pick("bufsize", 4096, 8192)}
 	o.Stream = tp.Chance("stream", 1, 3)
 	o.MaxBody = 3000
@@ -475,4 +483,167 @@ func parseLenient(rx []byte, methods []string, idx int, eof bool) ([]*wire.Msg, 
 		}
 	}
 	return nil, nil, false
+}
+
+// runC03Client: hostile or broken servers. Valid responses (fixed, chunked with
+// trailers, redirects with Location, Set-Cookie) are mutated, truncated and cut
+// by FIN/RST and read by the real HostClient (buffered / streaming, following
+// redirects); the caller then runs the response-side parsers on what arrived.
+func runC03Client(ep *core.Episode) {
+	tp := ep.Tape
+	S := ep.S
+	ep.Probe("client-side")
+	nw := core.NewNet(ep)
+	dialer := NewSimDialer(ep, nw)
+	stream := tp.Chance("stream", 1, 3)
+	opt := &http1.ClientOptions{Dialer: dialer, MaxConns: 4, ResponseBodyStream: stream, MaxResponseBodySize: tp.Pick("limit", 0, 500), ReadTimeout: time.Second}
+	hc := http1.NewHostClient(opt).(*http1.HostClient)
+	hc.SetDynamicConfig(&pclient.DynamicConfig{Addr: "sim.test:80"})
+	ep.OnCleanup(func() {
+		hc.CloseIdleConnections()
+		S.Sleep(11 * time.Second)
+		S.Sleep(11 * time.Second)
+	})
+	// response script
+	mk := func(i int) ([]byte, []int) {
+		m := &wire.Msg{Proto: "HTTP/1.1", Status: 200, Reason: "OK"}
+		m.Headers = []wire.Header{{K: "Content-Type", V: "text/plain"}, {K: "Set-Cookie", V: "k=v; Path=/; SameSite=Lax; HttpOnly; Max-Age=10"}}
+		m.Body = core.PatternBytes(byte(i), 1+tp.Choose("rb", 700))
+		switch tp.Choose("rkind", 4) {
+		case 1:
+			m.Chunked = true
+			m.ChunkSizes = splitChunks(tp, len(m.Body))
+			m.Headers = append(m.Headers, wire.Header{K: "Trailer", V: "X-T"})
+			m.Trailers = []wire.Header{{K: "X-T", V: "tv"}}
+		case 2:
+			m.Status, m.Reason = 302, "Found"
+			m.Headers = append(m.Headers, wire.Header{K: "Location", V: []string{"/next", "http://sim.test/abs", "a:b", "//", "http://", "/%zz", "", "?q", "http:/x", "/\x00"}[tp.Choose("loc", 10)]})
+		case 3:
+			m.Status, m.Reason = 204, "No Content"
+			m.Body = nil
+			m.NoFraming = true
+		}
+		if tp.Chance("tok", 1, 3) {
+			names := []string{"Set-Cookie", "Trailer", "Content-Length", "Content-Type", "Location"}
+			k := names[tp.Choose("tokn", len(names))]
+			src := map[string]string{"Set-Cookie": "Cookie", "Location": "Host"}[k]
+			if src == "" {
+				src = k
+			}
+			v := hostileTokens[src][tp.Choose("tokv", len(hostileTokens[src]))]
+			done := false
+			for j := range m.Headers {
+				if m.Headers[j].K == k {
+					m.Headers[j].V = v
+					done = true
+				}
+			}
+			if !done && k != "Content-Length" {
+				m.Headers = append(m.Headers, wire.Header{K: k, V: v})
+			}
+			ep.Probe("mut-token")
+		}
+		return m.Encode()
+	}
+	var peers []*PeerConn
+	served := map[int]int{}
+	dialer.OnConnect = func(p *PeerConn) { peers = append(peers, p) }
+	S.AddSource(core.SourceFunc(func(add func(core.Event)) {
+		for _, p := range peers {
+			p := p
+			p.Pump()
+			if p.Off >= len(p.Rx) || p.B.IsClosed() {
+				continue
+			}
+			_, n, err := wire.ParseRequest(p.Rx[p.Off:])
+			if err != nil {
+				continue
+			}
+			add(core.Event{Key: fmt.Sprintf("serve k%d", p.ID), Weight: 25, Apply: func() {
+				p.Off += n
+				served[p.ID]++
+				b, bounds := mk(p.ID*10 + served[p.ID])
+				if ep.Param("mutate") != "off" && tp.Chance("mutate", 3, 4) {
+					var d []string
+					b, d = mutate(tp, ep, b, bounds)
+					ep.Fault("corrupt")
+					ep.Logf("  response mutations %v", d)
+				}
+				switch tp.Weighted("endkind", []int{5, 2, 2}) {
+				case 0:
+					p.B.Send(b, 0)
+				case 1:
+					p.B.Send(b[:tp.Choose("cut", len(b)+1)], 0)
+					p.B.Close()
+					ep.Fault("truncate")
+				case 2:
+					p.B.Send(b[:tp.Choose("cut", len(b)+1)], 0)
+					p.B.Close()
+					ep.Fault("rst")
+				}
+			}})
+		}
+	}))
+	var caller *core.Task
+	caller = S.Go("caller", func() {
+		n := 1 + tp.Choose("ncalls", 3)
+		for i := 0; i < n; i++ {
+			req := protocol.AcquireRequest()
+			resp := protocol.AcquireResponse()
+			req.SetRequestURI(fmt.Sprintf("http://sim.test/c%d", i))
+			var err error
+			if tp.Choose("redirects", 2) == 1 {
+				err = hc.DoRedirects(context.Background(), req, resp, 2)
+			} else {
+				err = hc.Do(context.Background(), req, resp)
+			}
+			S.Yield("caller.afterDo")
+			ep.Logf("  call %d -> %v (status %d)", i, err, resp.StatusCode())
+			if err == nil {
+				// run the response-side parsers on what arrived
+				if resp.IsBodyStream() {
+					io.ReadAll(resp.BodyStream())
+					resp.CloseBodyStream()
+				} else {
+					resp.Body()
+				}
+				resp.Header.VisitAllCookie(func(k, v []byte) {
+					c := protocol.AcquireCookie()
+					c.ParseBytes(v)
+					_ = c.SameSite()
+					_ = c.Expire()
+					protocol.ReleaseCookie(c)
+				})
+				resp.Header.VisitAll(func(k, v []byte) {})
+				resp.Header.Trailer().VisitAll(func(k, v []byte) {})
+				if loc := resp.Header.Peek("Location"); len(loc) > 0 {
+					u := protocol.AcquireURI()
+					req.URI().CopyTo(u)
+					u.UpdateBytes(loc)
+					_ = u.FullURI()
+					protocol.ReleaseURI(u)
+				}
+			}
+			protocol.ReleaseRequest(req)
+			protocol.ReleaseResponse(resp)
+		}
+	})
+	S.Horizon = 30 * time.Second
+	res := S.Run(func() bool { return caller.Done })
+	if caller.Panic != nil {
+		if strings.Contains(caller.Stack, "github.com/cloudwego/hertz/") {
+			ep.Fail("C03.panic:"+shortFunc(panicTop(caller.Stack)), "a server response made the hertz client panic: %v at %s", caller.Panic, panicTop(caller.Stack))
+		} else {
+			ep.Infra = fmt.Sprintf("harness panic: %v\n%s", caller.Panic, caller.Stack)
+		}
+		return
+	}
+	switch res {
+	case core.RunDeadlock:
+		ep.Fail("C03.wellformed", "client call never returned although the server finished and a read timeout is configured; %s", S.Describe())
+	case core.RunStepCap:
+		ep.Infra = "step cap"
+	}
+	ep.Nontrivial = len(ep.Faults) > 0
+	ep.Sample = map[string]interface{}{"side": "client", "connections": len(peers), "stream_mode": stream, "faults": fmt.Sprint(ep.Faults)}
 }
